@@ -532,3 +532,17 @@ def fsha(path):
         for chunk in iter(lambda: f.read(1 << 20), b""):
             h.update(chunk)
     return h.hexdigest()
+
+
+def preload_so():
+    """builds harness/preload.c into the cache (once per source change)"""
+    cache = os.environ.get("VERIF_CACHE", os.path.join(VERIF, ".cache"))
+    out = os.path.join(cache, "h")
+    os.makedirs(out, exist_ok=True)
+    so = out + "/preload.so"
+    src = VERIF + "/harness/preload.c"
+    if not os.path.exists(so) or os.path.getmtime(so) < os.path.getmtime(src):
+        tmp = so + ".%d" % os.getpid()
+        subprocess.check_call(["gcc", "-O1", "-g", "-w", "-shared", "-fPIC", src, "-o", tmp, "-ldl"])
+        os.replace(tmp, so)
+    return so
